@@ -37,7 +37,7 @@ func (g *gen) genericDecl() string {
 // RawCases is the number of plain raw type cases; ExtInCases the number of
 // sibling-package-in-position cases (forced indices RawCases..RawCases+ExtInCases-1).
 const RawCases = 30
-const ExtInCases = 12
+const ExtInCases = 14
 
 // rawType creates a static type. Each call yields a type distinct from all
 // earlier ones (fresh named components).
@@ -49,7 +49,20 @@ func (g *gen) extIn(which int) (string, string, []string) {
 	x := g.s.Expr(et, "")
 	names := []string{g.s.Types[et].Name}
 	if which < 0 {
-		which = g.r.Intn(12)
+		which = g.r.Intn(ExtInCases)
+	}
+	if which == 12 || which == 13 {
+		// an alias declared in the sibling package (a re-export)
+		a := g.typeNameIn(e.Dir)
+		if g.s.ExtDecl == nil {
+			g.s.ExtDecl = map[string]string{}
+		}
+		g.s.ExtDecl[e.Dir] += fmt.Sprintf("type %s = %s\n", a, g.s.Types[et].Name)
+		ax := g.s.importName(e.Dir) + "." + a
+		if which == 12 {
+			return ax, "ext-alias", []string{a, g.s.Types[et].Name}
+		}
+		return "*" + ax, "ext-alias-ptr", []string{a, g.s.Types[et].Name}
 	}
 	switch which {
 	case 0:
